@@ -561,20 +561,26 @@ Definition file_index (d : desc) (s1 : file_store) : file_store * fout :=
   else (mkFile (f_names s1) (f_d2p s1) (f_disk s1) (f_cas s1) (f_res s1)
                (g_index d [] (f_graph s1)), FO OOk).
 
-(* after a successful store: restoreDuplicates (reads the manifest back), then graph.Index *)
+(* after a successful store: graph.Index first (so that a failing restore cannot leave stored
+   content out of the graph), then restoreDuplicates, which reads the manifest back again *)
 Definition file_index_after (fixed ov : bool) (d : desc) (s1 : file_store) : file_store * fout :=
-  if is_manifest (d_mt d) then
-    match file_fetch d s1 with
-    | None => (s1, FO (OErr ENotFound))
-    | Some c1 =>
-        if d_dig d =? b_hash c1
-        then match file_restore fixed ov (b_tl c1) s1 with
-             | (s2, Some e) => (s2, e)      (* "failed to restore duplicated file" -- after the store *)
-             | (s2, None) => file_index d s2
-             end
-        else (s1, FO (OErr EMismatch))
-    end
-  else file_index d s1.
+  let (s2, r) := file_index d s1 in
+  match r with
+  | FO OOk =>
+      if is_manifest (d_mt d) then
+        match file_fetch d s2 with
+        | None => (s2, FO (OErr ENotFound))
+        | Some c1 =>
+            if d_dig d =? b_hash c1
+            then match file_restore fixed ov (b_tl c1) s2 with
+                 | (s3, Some e) => (s3, e)    (* "failed to restore duplicated file": stored and indexed *)
+                 | (s3, None) => (s3, FO OOk)
+                 end
+            else (s2, FO (OErr EMismatch))
+        end
+      else (s2, FO OOk)
+  | _ => (s2, r)
+  end.
 
 Definition file_step (fixed ignore_noname disable_overwrite : bool)
            (s : file_store) (o : op) : file_store * fout :=
